@@ -103,6 +103,8 @@ type handOpts struct {
 	MinChunk int
 	// SpareBlockSize: BlockSizes may hold one entry more than there are links (FileSize stays the sum of the real ones)
 	SpareBlockSize bool
+	// BigChunks: one file in six has chunks of 9000 .. 70000 bytes (tens to hundreds of KiB in all) instead of 1 .. 5
+	BigChunks bool
 }
 
 func genHandFileOpt(t *rapid.T, o handOpts) (root *mnode, data []byte, writer, desc string) {
@@ -131,12 +133,20 @@ func genHandFileOpt(t *rapid.T, o handOpts) (root *mnode, data []byte, writer, d
 	spareBlockSize := o.SpareBlockSize && rapid.IntRange(0, 3).Draw(t, "spareBlockSize") == 0
 	var chunks [][]byte
 	pattern := ""
+	big := o.BigChunks && rapid.IntRange(0, 5).Draw(t, "bigChunks") == 0
+	if big {
+		pattern = "big:"
+	}
 	for i := 0; i < n; i++ {
 		var c []byte
 		if !o.NoEmpty && rapid.IntRange(0, 2).Draw(t, "empty") == 0 {
 			pattern += "0"
 		} else {
-			c = lcgBytes(rapid.IntRange(1, 5).Draw(t, "clen"), byte(i+1), 0)
+			if big {
+				c = lcgBytes(rapid.SampledFrom([]int{9000, 16384, 20000, 32768, 65536, 70000}).Draw(t, "bigClen"), byte(i+1), 0)
+			} else {
+				c = lcgBytes(rapid.IntRange(1, 5).Draw(t, "clen"), byte(i+1), 0)
+			}
 			pattern += "x"
 		}
 		chunks = append(chunks, c)
